@@ -123,7 +123,14 @@ def run(F, chk):
             if c.endswith("TimeoutContainer::set"):
                 return [((0, 0, 0, 1), None)]
             return None
+
+        def view(self, eng, body):
+            # private helpers of Mux (a tail of timeout() moved into its own method, ...) are explored as part of it
+            import inline
+            keep = lambda fn: (fn in SDA or fn == FTA or fn.endswith(("Connection::<Front>::writable", "TimeoutContainer::triggered", "TimeoutContainer::set")))
+            return inline.inlined(F, body, keep_pred=keep, depth=2, budget=400)
     e = Engine(F, TS())
+    to = e.spec.view(e, to)
     try:
         res = e.explore(to, None)
     except engine.Explosion as ex:
@@ -149,11 +156,32 @@ def run(F, chk):
     summ = C01.ArmSummary(F, extra=set(SDA) | {FTA})
     ESA = MUX + "shared::EndStreamAction"
     esd = MUX + "shared::end_stream_decision"
-    users = F.call_sites(esd)
-    rd.require(len(users) == 2, "expected 2 callers of end_stream_decision (H1, H2), found %d" % len(users))
+    # the users of the decision: callers of end_stream_decision, looking through thin wrappers that merely return it
+    # (a wrapper that counts / logs the decision is part of its caller)
+    direct = F.call_sites(esd)
+    roots = []
+    for b0, _, _ in direct:
+        if b0.locals[0] == ESA and not b0.rec.get("pub"):
+            roots += [x[0] for x in F.call_sites(b0.path)]
+        else:
+            roots.append(b0)
+    users = []
+    for b0 in {x.path: x for x in roots}.values():
+        fb = lib.flat(F, b0, keep=(esd,))
+        users += [(fb, bi, t) for bi, t in fb.calls() if callee_of(t) == esd]
+    rd.require(len(users) == 2, "expected 2 users of end_stream_decision (H1, H2), found %d" % len(users))
     for b, bi, t in users:
         rd.fn(b.path)
-        sw = C17.discr_switches(b, t["dest"])
+        carriers = {t["dest"]} if isinstance(t.get("dest"), int) else set()
+        grew = True
+        while grew:
+            grew = False
+            for _, _, st in b.stmts():
+                rv = st.get("rv")
+                if rv and rv["k"] == "use" and isinstance(st.get("lhs"), int) and op_local(rv["a"]) in carriers and st["lhs"] not in carriers:
+                    carriers.add(st["lhs"])
+                    grew = True
+        sw = [x for c in sorted(carriers) for x in C17.discr_switches(b, c)]
         if not sw:
             rd.broke("%s: no switch on the EndStreamAction" % b.path)
             continue
